@@ -10,7 +10,7 @@ from vlib.exactq import ExactQ, LinForm, SymSqrt, to_frac
 PID = "C20"
 PROP_FILES = ["Prop"]
 ALLOWED_AXIOMS = []
-EXTRA_COQ_DIRS = []
+EXTRA_COQ_DIRS = ["C04"]   # ProofsC04.v: the filter-based tools are C04.Model.run_filter on their coefficient lists
 RULE = ("real calls of maverage.deque/recursive/fir, accumulate.accumulate/func/z, amdf, envelope.rms/abs/squared, "
         "clip, zcross, unwrap on exact rational samples (ExactQ; LinForm symbolic samples for maverage/accumulate: "
         "one run per (strategy, size, length) covers every sample value and every `zero`); inputs of length 0..12 from a "
@@ -24,6 +24,9 @@ RULE = ("real calls of maverage.deque/recursive/fir, accumulate.accumulate/func/
 EXHAUSTIVE = {"quick": False, "thorough": False}
 trusted_base = [
   "samples, zero, limits, thresholds are exact rationals (ExactQ absorbs the library's float constants exactly)",
+  "filter-based tools (maverage.recursive/fir, envelope.*, amdf, accumulate.z): C20's difference-equation models are proved equal "
+  "to C04.Model.run_filter on the tools' coefficient lists (ProofsC04.v, from C04_lists_diffeq); that the tools build exactly "
+  "those coefficient lists is checked by the correspondence",
   "maverage: the model takes c = fl(1/size) as a parameter; the harness supplies Fraction(1.0/size) and holds checks |1-size*c| <= 2^-53",
   "amdf: fractional lags are dyadic floats for which the library's float operations lag-int(lag) and 1.-wr are exact (asserted by the harness)",
   "envelope: the coefficients g, a1 of lowpass(cutoff) are read from the filter object lowpass(cutoff) (numpoly[0], denpoly[1]); "
